@@ -5,6 +5,8 @@ import Ajson.Model.Read
 import Ajson.Model.Path
 import Ajson.Proofs.QuoteRoundTrip
 
+import Ajson.Proofs.KeyRoundTrip
+
 namespace Ajson.Props.C16
 open Ajson Ajson.Heap
 
@@ -116,6 +118,20 @@ theorem C16_ascii_key_roundtrip_partial (k : Bytes) (hk : ∀ c ∈ k, c.toNat <
   have hbody : (List.drop 1 ([39] ++ escapePathKey k ++ [39])).take (([39] ++ escapePathKey k ++ [39]).length - 2) = escapePathKey k := by simp
   rw [hbody]
   exact unquoteLoop_escape_ascii k _ (Nat.le_refl _) hk
+
+/-- **every key**, whatever its bytes (non-ASCII, ill-formed UTF-8, quotes, backslashes, control characters): the single-quoted
+name `Path()` writes is read back by the path scanner's unquoter as the key with every ill-formed byte replaced by U+FFFD —
+Go's own `string → []rune → string` coercion, the identity on well-formed UTF-8 -/
+theorem C16_key_roundtrip (k : Bytes) : unquoteBytes ([39] ++ escapePathKey k ++ [39]) 39 = some (coerceUtf8 k) :=
+  Proofs.key_roundtrip k
+
+/-- … in particular exactly the key whenever the key is well-formed UTF-8 -/
+theorem C16_key_roundtrip_valid (k : Bytes) (hv : validUtf8 k = true) :
+    unquoteBytes ([39] ++ escapePathKey k ++ [39]) 39 = some k := Proofs.key_roundtrip_valid k hv
+
+/-- non-vacuity: a key with a two-byte character, a quote and an ill-formed byte -/
+example : unquoteBytes ([39] ++ escapePathKey [0xC3, 0xA9, 39, 0xFF] ++ [39]) 39 = some [0xC3, 0xA9, 39, 0xEF, 0xBF, 0xBD] := by
+  decide +kernel
 
 /-- the path of a root is `$`; a child's path is its parent's path plus one bracket segment chosen by the PARENT's type -/
 theorem pathOf_root (fuel : Nat) (h : Heap) (n : Id) (hp : (h.get n).parent = none) : h.pathOf (fuel + 1) n = [36] := by
